@@ -335,6 +335,9 @@ def run(ctx):
   # location-independent analyses first: an anchored rule that gives up later must not mask them
   complete_bar_keeps_the_meter(ctx)
   repair_only_without_notes(ctx)
+  from sa import pitfalls as _pf
+  _pf.apply(ctx, 'PITFALL', [fi_ for q_, fi_ in sorted(ctx.P.module('musicxml_parser').all_functions.items()) if '<locals>' not in q_], ['case-folded-key'], {
+      'case-folded-key': 'a <harmony> of a kind from the supported table makes the whole file unreadable'})
   made_up_tempo_only_without_marks(ctx)
   degree_subtract(ctx, 'DEGREE/subtract-is-no')
   chord_accidentals(ctx, 'HARMONY/accidental-spelling')
